@@ -258,6 +258,16 @@ func TestC07(t *testing.T) {
 		}
 		synctest.Test(t, func(t *testing.T) { c07ResumePause(t, run, k, run.Rand(n+k)) })
 	}
+	// "on stop it is answered 503 with the stop message", at the gate itself and under sustained
+	// contention (the scenario of C08): a Wait() released by a stop reports that stop's message and
+	// never "proceed", whatever command follows the stop
+	for k := 0; k < run.N(8, 160); k++ {
+		desc := map[string]any{"idx": k, "kind": "gate-level-stop-pause-alternation"}
+		if !run.Mine(n+12000+k, desc) {
+			continue
+		}
+		c08GateHammer(run, k, run.Rand(n+12000+k))
+	}
 	for k := 0; k < run.N(6, 120); k++ {
 		desc := map[string]any{"idx": k, "kind": "held-then-stopped-twice"}
 		if !run.Mine(n+8000+k, desc) {
